@@ -44,7 +44,11 @@ fn main() {
         for (idx, line) in f.lines().enumerate() {
             let line = line.expect("read scenario");
             if line.trim().is_empty() { continue; }
-            let v: Value = serde_json::from_str(&line).unwrap_or_else(|e| { eprintln!("{}:{}: {}", path, idx + 1, e); std::process::exit(2) });
+            let mut v: Value = serde_json::from_str(&line).unwrap_or_else(|e| { eprintln!("{}:{}: {}", path, idx + 1, e); std::process::exit(2) });
+            if v.get("sid").is_none() {
+                let stem = std::path::Path::new(path).file_stem().and_then(|s| s.to_str()).unwrap_or("scn");
+                v["sid"] = Value::String(format!("{}-{}", stem, idx));
+            }
             util::set_inflight(line.clone());
             events += match v["fam"].as_str().unwrap_or("") {
                 "stream" => stream::run_session(&stream::session_from_json(&v, idx), &mut out),
